@@ -161,6 +161,8 @@ structure Prod where
   idx       : Nat := 0
   current   : Nat := 0
   written   : List Nat := []     -- ghost: sequences written to slots, in order
+  count     : Nat := 0           -- `count` argument of the current `next` call
+  claims    : List (Nat × Nat × Nat) := []   -- ghost: (start, end, requested count) of every returned `next`
 deriving Repr
 
 structure PSt where
@@ -179,10 +181,12 @@ def stepProd (x : PSt) : PSt :=
       | [] => { x with p := { p with pc := .drainInit } }
       | b :: rest =>
         { x with p := { p with todo := rest, min := p.cached, start := p.nextWrite,
-                                stop := p.nextWrite + (b - 1), pc := .gateCheck } }
+                                stop := p.nextWrite + (b - 1), count := b, pc := .gateCheck } }
   | .gateCheck =>
       if p.min + s.n < p.stop then { x with p := { p with pc := .gateLoad, acc := none, idx := 0 } }
-      else { x with p := { p with cached := p.min, nextWrite := p.stop + 1, w := p.start, pc := .write } }
+      else
+        let cl := p.claims ++ [(p.start, p.stop, p.count)]
+        { x with p := { p with cached := p.min, nextWrite := p.stop + 1, w := p.start, pc := .write, claims := cl } }
   | .gateLoad =>
       if p.idx < ngate s then
         { x with p := { p with acc := minOpt p.acc (gate s p.idx), idx := p.idx + 1 } }
